@@ -34,6 +34,8 @@ def build(nautilus, cfg, variant, tmp):
     pl = variant.get('pool_l')
     if pl:
         kw['pool'] = (T.FakePool(pl, variant.get('scramble', 0)), None)
+    if variant.get('pool_real'):
+        kw['pool'] = (int(variant['pool_real']), None)      # a real multiprocessing.Pool created by the sampler itself
     if variant.get('file'):
         kw['filepath'] = os.path.join(tmp, 'c11_%d.hdf5' % os.getpid())
         kw['resume'] = False
@@ -59,6 +61,8 @@ def call_accessor(s, name, rng):
 
 
 def one_run(job):
+    if job is None:
+        return None
     cfg, variant, tmpbase = job
     nautilus = use_repo()
     warnings.filterwarnings('ignore')
@@ -108,6 +112,11 @@ def one_run(job):
                         except Exception as e:     # noqa
                             out['fails'].append('accessor %s raised %s: %s' % (nm, type(e).__name__, str(e)[:100]))
         out['fp'] = c05.fingerprint(s)
+        if variant.get('pool_real') and getattr(s, 'pool_l', None) is not None:
+            try:
+                s.pool_l.pool.terminate()
+            except Exception:     # noqa
+                pass
         out['printed'] = len(buf.getvalue())
         out['stored'] = hashlib.sha1(b''.join(np.ascontiguousarray(p).tobytes() for p in s.points)).hexdigest()
         return out
@@ -131,7 +140,7 @@ def configs(tier, seed):
 
 def variants(tier):
     v = [dict(name='reference'), dict(name='again'), dict(name='vectorized', vectorized=True), dict(name='pool2', pool_l=2), dict(name='pool3', pool_l=3),
-         dict(name='pool-scrambled', pool_l=4, scramble=7), dict(name='verbose', verbose=True), dict(name='file', file=True),
+         dict(name='pool-scrambled', pool_l=4, scramble=7), dict(name='pool-real-2', pool_real=2), dict(name='verbose', verbose=True), dict(name='file', file=True),
          dict(name='accessors-dense', accessors='dense', aseed=1), dict(name='accessors-sparse', accessors='sparse', aseed=2),
          dict(name='accessors-single-a', accessors='single', aseed=3), dict(name='accessors-single-b', accessors='single', aseed=4),
          dict(name='accessors-single-c', accessors='single', aseed=5), dict(name='accessors-sparse-b', accessors='sparse', aseed=6)]
@@ -145,7 +154,9 @@ def main(run: Run, audit):
     vs = variants(run.tier)
     jobs = [(c, v, run.tmp) for c in cfgs for v in vs]
     with Pool(16) as pool:
-        res = pool.map(one_run, jobs, chunksize=1)
+        res = pool.map(one_run, [j if not j[1].get('pool_real') else None for j in jobs], chunksize=1)
+    # a sampler that creates a real multiprocessing pool cannot run inside a daemonic worker: these run here
+    res = [r if r is not None else one_run(j) for r, j in zip(res, jobs)]
     fails, broken = [], []
     n_pairs = n_acc = 0
     k = 0
